@@ -4,8 +4,8 @@
        tv   TOOLSVERSION (wire string)
        ops  letters: S save, W write, X xml, C contentxml, Y stylesxml, M metaxml, T settingsxml
        doc  mimetype nTopAttrs (a v)* meta scripts ffd settings styles auto master body
-            nPics (name mt id)*  nObjects (mimetype meta <7 nodes> nPics (name mt id)*)*
-            thumb(N | id)  nExtras (name mt (N | id))*
+            nPics (name mt id)*  nObjects (folder mimetype meta <7 nodes> nPics (name mt id)* nExtras (name mt (N | id))*)*
+            thumb(N | id) thumbMediaType  nExtras (name mt (N | id))*
     -> ok ; <state> @ <output> ; <state> @ <output> ...      one group per call
        state  = "="  (document dump identical to the dump before the call)  |  "D" <doc>
        output = "X" <node>  |  "P" n (name ("x" <node> | "r" id | "b" str))*
@@ -46,9 +46,13 @@ def pPics : P Pics := do
   let n ← pNat
   pMany n (do let a ← pStr; let b ← pStr; let c ← pNat; pure (a, b, c))
 
+def pExtras : P Extras := do
+  let ne ← pNat
+  pMany ne (do let a ← pStr; let b ← pStr; let c ← pOptNat; pure (a, b, c))
+
 def pSub : P SubDoc := do
-  let mt ← pStr; let m ← pNode; let p ← pPart; let ps ← pPics
-  pure { mimetype := mt, metaEl := m, part := p, pictures := ps }
+  let f ← pStr; let mt ← pStr; let m ← pNode; let p ← pPart; let ps ← pPics; let ex ← pExtras
+  pure { folder := f, mimetype := mt, metaEl := m, part := p, pictures := ps, extras := ex }
 
 def pDoc : P Doc := do
   let mt ← pStr
@@ -60,9 +64,9 @@ def pDoc : P Doc := do
   let no ← pNat
   let os ← pMany no pSub
   let th ← pOptNat
-  let ne ← pNat
-  let ex ← pMany ne (do let a ← pStr; let b ← pStr; let c ← pOptNat; pure (a, b, c))
-  pure { mimetype := mt, topAttrs := ta, metaEl := m, part := p, pictures := ps, objects := os, thumbnail := th, extras := ex }
+  let tt ← pStr
+  let ex ← pExtras
+  pure { mimetype := mt, topAttrs := ta, metaEl := m, part := p, pictures := ps, objects := os, thumbnail := th, thumbType := tt, extras := ex }
 
 def showPart (p : Part) : List String :=
   showNode p.scripts ++ showNode p.ffd ++ showNode p.settings ++ showNode p.styles ++ showNode p.auto
@@ -75,13 +79,16 @@ def showOptNat : Option Nat → String
   | none => "N"
   | some n => toString n
 
+def showExtras (ex : Extras) : List String :=
+  [toString ex.length] ++ ex.flatMap (fun (a, b, c) => [Wire.enc a, Wire.enc b, showOptNat c])
+
 def showDoc (d : Doc) : List String :=
   [Wire.enc d.mimetype, toString d.topAttrs.length] ++ d.topAttrs.flatMap (fun (a, v) => [toString a, Wire.enc v])
     ++ showNode d.metaEl ++ showPart d.part ++ showPics d.pictures
     ++ [toString d.objects.length]
-    ++ d.objects.flatMap (fun o => [Wire.enc o.mimetype] ++ showNode o.metaEl ++ showPart o.part ++ showPics o.pictures)
-    ++ [showOptNat d.thumbnail, toString d.extras.length]
-    ++ d.extras.flatMap (fun (a, b, c) => [Wire.enc a, Wire.enc b, showOptNat c])
+    ++ d.objects.flatMap (fun o => [Wire.enc o.folder, Wire.enc o.mimetype] ++ showNode o.metaEl ++ showPart o.part
+         ++ showPics o.pictures ++ showExtras o.extras)
+    ++ [showOptNat d.thumbnail, Wire.enc d.thumbType] ++ showExtras d.extras
 
 def showOut : Out → List String
   | .xml n => "X" :: showNode n
